@@ -497,7 +497,7 @@ func Main(prop string) {
 						if (depth+m+s+inv)%4 == 0 {
 							lib = depth + (m+inv+3)%2 // at or just above the fork point
 						}
-						e.famTwoBranches(depth, m, s, inv, k, run.Pick(6, 60), lib)
+						e.famTwoBranches(depth, m, s, inv, k, run.Pick(6, 40), lib)
 					}
 				}
 			}
